@@ -280,6 +280,24 @@ def h_mm_commit(env: str, metadata_only_stamp=False):
         if out == "raise":
             if val.cls != "AmbiguousCommitError":
                 h.ensure("NOFLIP:a-non-ambiguous-raise-leaves-the-pointer-unwritten", len(fl) == 0)
+            # ACCEPT: a commit is refused only for a reason the caller can act on - the base is not the current version, the lock
+            # was lost, the pointer race was lost - or because the environment failed (injected storage / lock fault).  Leftovers
+            # of dead writers (orphan metadata files, stale temp files) are never a reason: the table "accepts new commits".
+            rr = g.get("refresh_result")
+            env_fault = bool(getattr(val, "fields", {}).get("fault") or getattr(val, "fields", {}).get("ambiguous"))
+            if val.cls == "ConcurrentModificationException":
+                lost_lock = any(e["result"] is False for e in lock.events if e["op"] == "lock.is_held")
+                lost_race = bool(val.fields.get("conflict"))
+                ne = lambda f: z3.Not(pyops.bool_z(pyops.py_eq(cur.fields[f], base.fields[f])))
+                stale = z3.Or(ne("current_snapshot_id"), ne("last_updated_ms")) if rr is cur else z3.BoolVal(False)
+                h.ensure("ACCEPT:a-conflict-is-reported-only-for-a-stale-base,a-lost-lock-or-a-lost-pointer-race",
+                         z3.BoolVal(True) if (lost_lock or lost_race) else stale,
+                         detail="a commit whose base IS the validated current version must go through, whatever else lies in metadata/ " + repr(val))
+            elif val.cls == "ValueError" and not env_fault:
+                h.ensure("ACCEPT:ValueError-only-for-a-base-of-another-table",
+                         z3.Not(pyops.bool_z(pyops.py_eq(cur.fields["table_uuid"], base.fields["table_uuid"]))) if rr is cur else z3.BoolVal(False), detail=repr(val))
+            else:
+                h.ensure("ACCEPT:any-other-failure-is-an-environment-fault(storage,lock,ambiguous-pointer-write)", env_fault, detail=repr(val))
             return
         # ---------------- acknowledged
         h.ensure("OUTCOME:acknowledged=>flipped-exactly-once", len(fl) == 1)
@@ -433,6 +451,22 @@ try:
             pass
     finally:
         mmod.datetime = frozen
+    # ---- ACCEPT: a dead writer's orphan (metadata file of the NEXT version, pointer never advanced) must not block commits
+    M3 = MetadataManager(os.path.join(root, "o"), LocalStorageBackend(os.path.join(root, "o")))
+    M3.initialize_table(TableMetadata(location="o"))
+    b = M3.refresh(); n = copy.deepcopy(b); n.properties = {"one": "1"}; M3.commit(b, n)
+    mdir = os.path.join(root, "o", "metadata")
+    curf = open(os.path.join(root, "o", "metadata.version-hint.text")).read().strip()
+    nextv = int(curf[1:].split("-")[0].split(".")[0]) + 1
+    shutil.copy(os.path.join(mdir, curf), os.path.join(mdir, "v%d-0a0b0c0d.metadata.json" % nextv))
+    M4 = MetadataManager(os.path.join(root, "o"), LocalStorageBackend(os.path.join(root, "o")))
+    b = M4.refresh(); n = copy.deepcopy(b); n.properties = {"two": "1"}
+    try:
+        M4.commit(b, n)
+        if "two" not in MetadataManager(os.path.join(root, "o"), LocalStorageBackend(os.path.join(root, "o"))).refresh().properties:
+            bad.append("commit next to an orphan was acknowledged but is not visible")
+    except Exception as e:
+        bad.append("a commit on the current base was refused because of a dead writer's orphan metadata file: %r" % (e,))
 finally:
     shutil.rmtree(root, ignore_errors=True)
 print("replay MetadataManager.commit ->", bad or "ok")
@@ -836,7 +870,9 @@ def h_commit_file_ops(mode: str):
                      snapshots=TheoryObj("symiter", fields={"mk": mk_snap}))
         g = {"list_reads": [], "man_reads": [], "new_manifests": [], "list_writes": [], "snap_calls": [], "order": [], "final": _acc.new_acc("final_manifests")}
         g["final"].fields["mk_earlier"] = lambda I2: SObj("ManifestFile", {"manifest_path": SStr(I2.ctx.fresh_str("some_manifest_of_the_list")), "partition_spec_id": 0}, label="some-manifest-of-the-new-list")
-        w_file = SObj("DataFile", {"file_path": SStr(z3.String("witness_file_path"))}, label="witness-file")
+        w_orig = {"added_snapshot_id": SOpt(z3.Bool("witness_file_added_sid_none"), SInt(z3.Int("witness_file_added_sid"))),
+                  "sequence_number": SOpt(z3.Bool("witness_file_seq_none"), SInt(z3.Int("witness_file_seq")))}
+        w_file = SObj("DataFile", dict(w_orig, file_path=SStr(z3.String("witness_file_path"))), label="witness-file")
         w_in_manifest = z3.Bool("witness_file_in_manifest")
         cur = {}
 
@@ -949,6 +985,10 @@ def h_commit_file_ops(mode: str):
                             spec = z3.And(w_in_manifest, z3.Not(z3.IsMember(wz, deleted.z)), z3.Not(z3.IsMember(stripped, deleted.z)))
                             res.append(("DELETE-EXACT:a-file-survives-iff-neither-spelling-of-its-path-is-named",
                                         (keep[0] == spec) if keep else z3.BoolVal(False)))
+                            _eq = lambda a, b: z3.BoolVal(True) if a is b else pyops.bool_z(pyops.py_eq(a, b))
+                            res.append(("CARRY:survivors-are-handed-to-the-rewrite-with-the-adding-snapshot-and-sequence-number-they-were-read-with",
+                                        z3.Implies(spec, z3.And(_eq(w_file.fields.get("added_snapshot_id"), w_orig["added_snapshot_id"]),
+                                                                _eq(w_file.fields.get("sequence_number"), w_orig["sequence_number"])))))
                             res.append(("CARRY:rewrite-stamped-with-this-commit's-snapshot-id-and-sequence-number",
                                         z3.BoolVal(nm[0]["args"][2] is cur["snapshot_id"] and nm[0]["kw"].get("sequence_number") is cur["seq"])))
                             res.append(("GUAR-tx:rewritten-manifest-registered-in-flight-before-written",
